@@ -170,12 +170,13 @@ func (c *c06) realID(p int, seq uint32) string {
 }
 
 func (c *c06) kindEnabled(p, k int) bool {
-	_, assoc := c.R.Nodes[c.W.PeerIP(p)]
 	switch k {
 	case kHB, kAssoc:
 		return true
 	case kEst:
-		return assoc && len(c.R.Live) < 2
+		// also before the peer is associated: such a request produces no response, and its duplicate must stay
+		// ignored even after the association has been set up in between
+		return len(c.R.Live) < 2
 	case kMod, kDel:
 		return c.liveSessOf(p) != 0
 	}
@@ -271,6 +272,15 @@ func (c *c06) Apply(e seqx.Event) seqx.StepResult {
 		}
 		// the first copy must have been executed (not mistaken for a retransmission)
 		want := map[int]uint8{kHB: smf.MHeartbeatRsp, kAssoc: smf.MAssocRsp, kEst: smf.MEstRsp, kMod: smf.MModRsp, kDel: smf.MDelRsp}
+		if _, assoc := c.R.Nodes[c.W.PeerIP(p)]; k == kEst && !assoc {
+			// establishment from a peer that is not associated: no response, no session
+			if len(ms) != 0 || len(c.W.V.SessDumps()) != nLive {
+				j.Fail("unknown-node-answered", "%s from a peer without association produced %v (sessions %d -> %d)", e, ms, nLive, len(c.W.V.SessDumps()))
+			}
+			j.Tag("est-before-association")
+			c.rx[rxKey(p, seq)] = ref
+			break
+		}
 		if t, ok := want[k]; ok {
 			if len(ms) != 1 || ms[0].Type != t || ms[0].Seq != seq {
 				j.Fail("first-copy-not-executed:"+kindName[k], "%s: expected one response of type %d with sequence %d, got %v", e, t, seq, ms)
